@@ -32,6 +32,7 @@ fn main() {
         "explore" => cmd_explore(&args),
         "replay" => cmd_replay(&args),
         "diff" => cmd_diff(&args),
+        "dump" => cmd_dump(&args),
         "list" => {
             let prop = arg(&args, "--prop").expect("--prop");
             let thorough = arg(&args, "--tier").as_deref() == Some("thorough");
@@ -259,5 +260,26 @@ fn cmd_diff(args: &[String]) {
     match out {
         Some(f) => std::fs::write(f, text).unwrap(),
         None => println!("{text}"),
+    }
+}
+
+/// Print, for one scenario, every explored schedule with its feature-neutral observable trace.
+fn cmd_dump(args: &[String]) {
+    let prop = arg(args, "--prop").expect("--prop");
+    let only = arg(args, "--only").expect("--only");
+    let seed: u64 = arg(args, "--seed").map(|s| s.parse().unwrap()).unwrap_or(0);
+    let p = props::all().into_iter().find(|p| p.id == prop).expect("unknown property");
+    let lim = explore::Limits { bound: p.bound_quick, max_execs: p.max_execs_quick };
+    let mut stats = explore::Stats::default();
+    for mut s in (p.gen)(false) {
+        if s.name != only {
+            continue;
+        }
+        s.seed = s.seed.wrapping_add(seed);
+        let s = Arc::new(s);
+        let proj = |t: &[Ev]| explore::feature_neutral(t).iter().map(render).collect::<Vec<String>>();
+        let c = explore::explore_collect(&s, &lim, &proj, &mut stats, true);
+        let rows: Vec<serde_json::Value> = c.by_schedule.iter().map(|(k, h)| serde_json::json!({"schedule": k, "hash": format!("{h:016x}"), "lines": c.sample_lines.get(h)})).collect();
+        println!("{}", serde_json::json!({"scenario": *s, "rows": rows}));
     }
 }
